@@ -145,7 +145,7 @@ def obs_collection(pc, out, prefix=""):
 def _proj(name):
     import cartopy.crs as ccrs
 
-    return {None: None, "robinson": ccrs.Robinson(), "ortho": ccrs.Orthographic(central_longitude=20.0, central_latitude=30.0), "platecarree180": ccrs.PlateCarree(central_longitude=180.0)}[name]
+    return {None: None, "robinson": ccrs.Robinson(), "ortho": ccrs.Orthographic(central_longitude=20.0, central_latitude=30.0), "robinson180": ccrs.Robinson(central_longitude=180.0), "mollweide-120": ccrs.Mollweide(central_longitude=-120.0)}[name]
 
 
 QUERY_LL = [(31.0, 12.0), (-179.0, -3.0), (10.0, 88.0)]
@@ -241,6 +241,10 @@ def build_events(level="full"):
                     continue
                 ev["gdf(%s,%s,%s)" % (pe, engine, proj)] = ("value", gdf(pe, engine, proj))
 
+    # projections whose central longitude moves the antimeridian
+    ev["gdf(exclude,spatialpandas,robinson180)"] = ("value", gdf("exclude", "spatialpandas", "robinson180"))
+    ev["gdf(ignore,geopandas,robinson180)"] = ("value", gdf("ignore", "geopandas", "robinson180"))
+
     def coll(kind, pe, proj):
         def f(g):
             out = {}
@@ -256,6 +260,9 @@ def build_events(level="full"):
                 if proj and pe == "split":
                     continue
                 ev["%s(%s,%s)" % (kind, pe, proj)] = ("value", coll(kind, pe, proj))
+
+    ev["poly(exclude,robinson180)"] = ("value", coll("poly", "exclude", "robinson180"))
+    ev["line(exclude,robinson180)"] = ("value", coll("line", "exclude", "robinson180"))
 
     def tree(which, coords, system, **kw):
         def f(g):
